@@ -95,6 +95,28 @@ def tokens_ok(case):
     return True
 
 
+def active_unambiguous(regdefs):
+    """premise 'unambiguous identifiers' for a list in which some types declare an identifier window SHORTER than their
+    identifier (IDENTIFIER_DIGITS left at its default 0, or a miscounted width): the literal identifier cannot be found in
+    such a window, so the type recognises no line and never writes one; the premise concerns the remaining types, in order"""
+    return reglib.unambiguous([rd for rd in regdefs if rd["digits"] >= len(rd["ident"])])
+
+
+def gen_short_window_regdefs(rng):
+    """a register list laid out as usual (identifier columns, then the fields) in which 1..all types then declare a window
+    shorter than the identifier: 0 (the declared default of Register.IDENTIFIER_DIGITS) three times out of four, otherwise
+    1..len-1. Returns (layout, regdefs): the layout is what the author of the lines had in mind (lines are generated from it),
+    regdefs is what the classes declare"""
+    import copy
+    layout = reglib.gen_regdefs(rng, same_window=rng.random() < 0.5)
+    regdefs = copy.deepcopy(layout)
+    k = rng.randint(1, len(regdefs))
+    for i in rng.sample(range(len(regdefs)), k):
+        n = len(regdefs[i]["ident"])
+        regdefs[i]["digits"] = 0 if n == 1 or rng.random() < 0.75 else rng.randint(1, n - 1)
+    return layout, regdefs
+
+
 class CHECK(Check):
     pid = "C06"
     entry = "REGFILE"
@@ -110,7 +132,12 @@ class CHECK(Check):
             "tokenisation premises decided on the definitions, and on the data for written contents): contents of 1-12 lines in "
             "which several records of one type follow each other with all tokens, fewer tokens than fields, empty last tokens, "
             "missing values anywhere, blanks around tokens, an extra token, plus the grammar/perturbation lines; and contents "
-            "written from generated data.")
+            "written from generated data."
+            " Round 14: register lists in which 1..all types declare an identifier window SHORTER than their identifier (0, the "
+            "declared default of IDENTIFIER_DIGITS, three times out of four; otherwise 1..len-1) while lines and fields are laid "
+            "out as if the window covered the identifier: such a type recognises no line, so every line of its layout "
+            "(canonical, perturbed, with trailing text) is an unrecognised line that must survive verbatim between the lines "
+            "of the other types; unambiguity is required of the types that can match.")
 
     def gen(self, tier, rng):
         n = 2500 if tier == "quick" else 60000
@@ -147,6 +174,18 @@ class CHECK(Check):
                 lines = [l for l in lines if "\n" not in l]
                 content = "\n".join(lines) + (rng.choice(["\n", "\n", ""]) if lines else "")
                 yield {"regdefs": regdefs, "kind": "content", "content": content, "delimited": True}
+        # types whose declared window is shorter than their identifier (IDENTIFIER_DIGITS left at 0, or miscounted)
+        n = 300 if tier == "quick" else 8000
+        made = 0
+        while made < n:
+            layout, regdefs = gen_short_window_regdefs(rng)
+            if not active_unambiguous(regdefs):
+                continue
+            made += 1
+            lines = [perturb(rng, gen_line(rng, layout), layout) for _ in range(rng.randint(1, 12))]
+            lines = [l for l in lines if "\n" not in l]
+            content = "\n".join(lines) + (rng.choice(["\n", "\n", ""]) if lines else "")
+            yield {"regdefs": regdefs, "kind": "content", "content": content, "short_window": True}
 
     def content_of(self, case, regs, F):
         if case["kind"] == "content":
@@ -246,6 +285,13 @@ class CHECK(Check):
         if case.get("delimited"):
             out["delimited_" + case["kind"]] = 1
             out["delimited_with_blank_delimiter"] = int(any(rd["delim"] in "\t " for rd in case["regdefs"]))
+        if case.get("short_window"):
+            short = [rd for rd in case["regdefs"] if rd["digits"] < len(rd["ident"])]
+            out["window_shorter_than_identifier"] = 1
+            out["window_zero"] = int(any(rd["digits"] == 0 for rd in short))
+            out["window_short_all_types"] = int(len(short) == len(case["regdefs"]))
+            out["window_short_line_of_that_type_in_content"] = int(any(
+                l.startswith(rd["ident"].rstrip()) for rd in short for l in nl_lines(case["content"])))
         return out
 
     def signature(self, case, why):
